@@ -516,13 +516,19 @@ Definition cm_lmode (m : cmode) (f : N) : mode :=
   | COther g x => if (g =? f)%N then x else MIdle
   end.
 
-(* the client's mode after a primary operation on f returned with lock mode m *)
+(* the client's mode after a primary operation on f returned with lock mode m.
+   Combinations no caller expects (never reached) become COther: the lock share is kept, nothing else is known. *)
 Definition newcm (old : cmode) (f : N) (m : mode) (o : outcome) : cmode :=
   match m with
   | MIdle => CIdle
   | MExcl => CWrite f (match o with OAdd id => id | _ => cm_last old end)
   | MAppend => CAppend f (match o with OAdd id => id | _ => cm_last old end)
-  | MShared => CRead f (match o with OOpenR (Some k) => k | _ => match old with CRead _ k => k | _ => kzero end end)
+  | MShared =>
+      match o with
+      | OOpenR (Some k) => CRead f k
+      | OLook _ _ => match old with CRead g k => if (g =? f)%N then CRead f k else COther f m | _ => COther f m end
+      | _ => COther f m
+      end
   | MHeaders | MBusy => COther f m
   end.
 
